@@ -74,6 +74,9 @@ def main(argv):
     patches = sorted(glob.glob(os.path.join(HERE, "seeded", "C??", "*", "patch.diff")))
     if want:
         patches = [p for p in patches if p.split(os.sep)[-3] in want]
+    mink = int(os.environ.get("SEED_MINK", "0"))   # only the patches of later rounds
+    if mink:
+        patches = [p for p in patches if int(p.split(os.sep)[-2]) >= mink]
     overlays = {}
     for patch in patches:
         overlays[patch] = overlay_of(patch)
